@@ -219,6 +219,47 @@ def probe_operators(ctx):
     return n
 
 
+def probe_unprintable_arguments(ctx):
+    """Chains whose arguments (or the values already fixed in the receiver) cannot be printed - ints beyond
+    CPython's int -> str digit limit, lists nested deeper than the recursion limit: "arguments of any type" covers
+    them, so the outcome is a schema or DeclarationError, never the ValueError / RecursionError of a message that
+    could not be built (F39); the receiver is unchanged (observed through props, not through repr)."""
+    from d42.declaration import DeclarationError
+    H, deep = 10 ** 5000, []
+    for _ in range(5000):
+        deep = [deep]
+    sc = ds.ev("schema")
+    ns = dict(ds.NS, H=H, deep=deep)
+    chains = ["schema.int(H).min(H * 10)", "schema.int.min(H * 10)(H)", "schema.int(H)(1)", "schema.int(1).max(-H)", "schema.int(H)(H)",
+              "schema.int.min(H).max(1)", "schema.int.min(H).min(H)", "schema.int(H).max(H).min(H + 1)", "schema.int(deep)",
+              "schema.float.min(H)", "schema.float(H)", "schema.float.precision(H)", "schema.float(1.5).min(H)", "schema.float.max(-H)",
+              "schema.str.len(H).len(1)", "schema.str('a').len(H)", "schema.str('a').len(H, ...)", "schema.str('a').len(..., -H)",
+              "schema.str(H)", "schema.str.alphabet(H)", "schema.str.regex(H)", "schema.str.contains(H)", "schema.str.len(1, H).len(2)",
+              "schema.list([schema.int(H)]).len(3)", "schema.list([schema.int(H)])([])", "schema.list(H)", "schema.list([H])",
+              "schema.list([schema.int]).len(H)", "schema.list(schema.int(H))(schema.int)", "schema.list(deep)",
+              "schema.any(schema.int(H))(schema.int)", "schema.any(H)", "schema.any(schema.int, H)", "schema.int(H) | H",
+              "schema.dict({H: ...})", "schema.dict({...: H})", "schema.dict({'a': H})", "schema.dict({'a': schema.int(H)})({})",
+              "schema.dict({H: schema.int})({})", "schema.dict({optional(H): ...})", "schema.dict(H)", "schema.dict({'a': deep})",
+              "schema.bool(H)", "schema.bytes(H)", "schema.uuid4(H)", "schema.datetime(H)", "schema.date(H)", "schema.bool(True)(H)",
+              "schema.alias(H, schema.int)", "schema.alias('A', H)"]
+    n = 0
+    for src in chains:
+        n += 1
+        try:
+            out = eval(src, ns)
+            ok = isinstance(out, ds.Schema)
+            what = "returned " + type(out).__name__
+        except DeclarationError:
+            continue
+        except Exception as e:  # noqa
+            ok, what = False, f"raised {type(e).__name__}: {str(e)[:120]}"
+        if not ok:
+            ctx.violation(f"declaration call lets another exception escape (or returns a non-schema): {src}",
+                          {"kind": "input", "chain": src, "where": "H = 10**5000; deep = a list nested 5000 levels",
+                           "observed": what, "expected": "a schema or DeclarationError"})
+    return n
+
+
 def run(ctx):
     ds.check_environment()
     ds.extra_known(ctx)
@@ -232,6 +273,7 @@ def run(ctx):
     for kind_name, (ops, d) in ds.FOCUS.items():
         st.tree(kind_name, d, ops=ops)
     operator_probes = probe_operators(ctx)
+    unprintable_probes = probe_unprintable_arguments(ctx)
     terms = list(st.cases)
     bad = common.eval_cases(ctx.workdir, "c10", terms, "dcase", "dcase_ok", extra_requires=ds.REQUIRES)
     for i in bad[:10]:
@@ -255,7 +297,7 @@ def run(ctx):
         oracle_cases=st.calls,
         distribution={"outcomes": st.outcomes, "fixed_value_checked": st.fixed_checked,
                       "redeclarations": st.redeclared, "f10_nan_cases": st.f10,
-                      "calls_cumulative_by_type": st.per_kind},
+                      "calls_cumulative_by_type": st.per_kind, "unprintable_argument_probes": unprintable_probes},
     )
 
 
